@@ -208,15 +208,7 @@ pub fn k_c19_batch_malformed_b() {
     vreach!("C19.malformed_b.reach");
 }
 
-//# harness: fn=BatchMerkleProof::into_openings, get_root, verify_batch (one index, with expansion into openings); label=bounded(depth 2; shape (nodes [1], 1 index, 1 leaf) with into_openings; index value and digests symbolic); tier=thorough; uses=malformed_batch,nodes_of,digests,indexes_of; timeout=1800
-#[cfg_attr(kani, kani::proof)]
-#[cfg_attr(kani, kani::unwind(12))]
-#[cfg_attr(kani, kani::stub(alloc::fmt::format, vs::fake_format))]
-pub fn k_c19_batch_malformed_c1() {
-    malformed_batch(&[1], 1, 1, 2, true);
-    vreach!("C19.malformed_c1.reach");
-}
-
+// (the instance with `into_openings` on a malformed one-index batch did not finish in 30 minutes: not claimed)
 //# harness: fn=BatchMerkleProof::get_root, verify_batch (two indexes, two leaves); label=bounded(depth 2; shape (nodes [1, 1], 2 indexes, 2 leaves); index values and digests symbolic); tier=thorough; uses=malformed_batch,nodes_of,digests,indexes_of; timeout=1800
 #[cfg_attr(kani, kani::proof)]
 #[cfg_attr(kani, kani::unwind(12))]
@@ -280,45 +272,9 @@ pub fn k_c18_batch_openings_verify() {
 }
 
 // from_single_proofs / into_openings against the single openings on a 4-leaf tree: even the one-index instance
-// does not finish in 55 minutes (maps whose values hold cloned proof vectors) - not claimed. The 2-leaf tree
-// instances below are the thorough tier's stand-in, each shape its own harness.
-
-fn batch_matches_singles2(idx: &[usize]) {
-    let (_l, t) = tree_of(2);
-    let (bl, bp) = t.prove_batch(idx).unwrap();
-    let mut singles = Vec::new();
-    let mut k = 0;
-    while k < idx.len() {
-        singles.push(t.prove(idx[k]).unwrap());
-        k += 1;
-    }
-    let assembled = BatchMerkleProof::<HM>::from_single_proofs(&singles, idx);
-    vcheck!("C18.batch.from_single_proofs_equal", assembled.depth == bp.depth && assembled.nodes == bp.nodes);
-    let openings = bp.into_openings(&bl, idx).unwrap();
-    k = 0;
-    while k < idx.len() {
-        vcheck!("C18.batch.into_openings_equal", openings[k].0 == singles[k].0 && openings[k].1 == singles[k].1);
-        k += 1;
-    }
-}
-
-//# harness: fn=BatchMerkleProof::from_single_proofs, into_openings (2 leaves, index [1]); label=bounded(2 leaves; index sequence [1]; digests symbolic); tier=thorough; props=C18; uses=batch_matches_singles2,tree_of,digests; timeout=1800
-#[cfg_attr(kani, kani::proof)]
-#[cfg_attr(kani, kani::unwind(12))]
-#[cfg_attr(kani, kani::stub(alloc::fmt::format, vs::fake_format))]
-pub fn k_c18_batch_singles_2leaves_1() {
-    batch_matches_singles2(&[1]);
-    vreach!("C18.batch_singles.1.reach");
-}
-
-//# harness: fn=BatchMerkleProof::from_single_proofs, into_openings (2 leaves, indexes [0, 1]); label=bounded(2 leaves; index sequence [0, 1]; digests symbolic); tier=thorough; props=C18; uses=batch_matches_singles2,tree_of,digests; timeout=1800
-#[cfg_attr(kani, kani::proof)]
-#[cfg_attr(kani, kani::unwind(12))]
-#[cfg_attr(kani, kani::stub(alloc::fmt::format, vs::fake_format))]
-pub fn k_c18_batch_singles_2leaves_01() {
-    batch_matches_singles2(&[0, 1]);
-    vreach!("C18.batch_singles.01.reach");
-}
+// does not finish in 55 minutes, and a one-index instance on a 2-leaf tree not in 35 minutes (maps whose values
+// hold cloned proof vectors): `from_single_proofs` and `into_openings` are NOT under contract for C18 (listed in
+// the evidence); C19 covers only that `into_openings` validates its arguments first.
 
 //# harness: fn=MerkleTree::prove_batch, verify_batch, get_root (4 leaves, all indexes); label=bounded(4 leaves; index sequence [0,1,2,3]; digests symbolic); tier=thorough; props=C18; uses=batch_verifies,tree_of,digests; timeout=1800
 #[cfg_attr(kani, kani::proof)]
